@@ -3,7 +3,7 @@
 From Coq Require Import List Arith Bool ZArith Lia Permutation Sorted.
 From Mamba Require Import Canon.Perm Canon.Iso Canon.Model Canon.Refine Canon.Sorted Canon.Tree Canon.Fuel
   Disjoint.Model Canon.SearchModel Canon.SearchHoare Canon.SearchCells Canon.SearchTarget
-  Canon.SearchDeage Canon.SearchRefine Canon.SearchExec Canon.SearchInvT.
+  Canon.SearchDeage Canon.SearchRefine Canon.SearchExec Canon.SearchValue Canon.SearchInvT.
 Import ListNotations.
 Open Scope nat_scope.
 
@@ -79,7 +79,7 @@ Lemma deage_T : forall anc L ps P, 1 <= L -> cur_ok anc L false ps -> last_opt a
                    (fst (deage_sv (fns P) (p_spl ps) (p_value ps)))).
 Proof.
   intros anc L ps P HL (HP & HN & HA & HX & Hage & Hages & HC) HPl HNo. rewrite HPl in HC.
-  destruct HC as (HR & HF & c & Hc & Hca).
+  destruct HC as (HR & HF & c & Hc & Hca & _).
   destruct (node_target _ _ HNo) as (b & c0 & a & e & sz & EP & HS & Hb & _).
   assert (Hlt : fns P < length P) by (rewrite EP at 2; rewrite app_length; simpl; lia).
   rewrite <- Hage. apply (deage_child (p_age ps) (p_cells ps) P c ps); try assumption; try reflexivity.
@@ -92,17 +92,23 @@ Qed.
 
 Lemma child_of_V : forall L cs cs' P, child_of L cs P -> V (zl L) cs cs' -> child_of L cs' P.
 Proof.
-  intros L cs cs' P (HR & HF & c & Hc & Hca) HV. split; [eapply V_R; eassumption|].
-  assert (Hlen : fns P <= length cs).
-  { apply Nat.lt_le_incl. apply nth_error_Some. rewrite Hc. discriminate. }
-  destruct (V_prefix _ _ _ (fns P) HV) as [H1 H2].
-  - intros k d Hk Hd.
+  intros L cs cs' P (HR & HF & c & Hc & Hca & Hcs) HV. split; [eapply V_R; eassumption|].
+  assert (Hlen : S (fns P) <= length cs).
+  { apply nth_error_Some. rewrite Hc. discriminate. }
+  destruct (V_prefix _ _ _ (S (fns P)) HV) as [H1 _].
+  - intros k d Hk Hd. destruct (Nat.eq_dec k (fns P)) as [->|Hne]; [rewrite Hc in Hd; inversion Hd; subst; exact Hcs|].
+    assert (Hk' : k < fns P) by lia.
     assert (HFk : nth_error (firstn (fns P) cs) k = Some d) by (rewrite nth_error_firstn; assumption).
     destruct (Forall2_nth_error_r _ _ _ _ _ HF _ _ HFk) as (p & Hp & [_ Hpd]).
-    rewrite nth_error_firstn in Hp by assumption. destruct (fns_prefix _ _ _ Hk Hp) as [x Hx].
+    rewrite nth_error_firstn in Hp by assumption. destruct (fns_prefix _ _ _ Hk' Hp) as [x Hx].
     exists x. rewrite <- Hpd. exact Hx.
   - exact Hlen.
-  - split; [eapply same_cell_trans; eassumption|]. apply (H2 c Hc Hca).
+  - split.
+    + eapply same_cell_trans; [exact HF|]. eapply (Forall2_firstn_le _ _ _ (fns P) (S (fns P))); [lia|exact H1].
+    + assert (HN : nth_error (firstn (S (fns P)) cs) (fns P) = Some c) by (rewrite nth_error_firstn; [exact Hc|lia]).
+      destruct (Forall2_nth_error_l _ _ _ _ _ H1 _ _ HN) as (c' & Hc' & [Ha Hv]).
+      rewrite nth_error_firstn in Hc' by lia. exists c'. split; [exact Hc'|]. split; [rewrite <- Ha; exact Hca|].
+      destruct Hcs as [x Hx]. exists x. rewrite <- Hv. exact Hx.
 Qed.
 
 (* ---------------------------------------------------------------- the easy conditions *)
@@ -319,7 +325,7 @@ Proof.
   { split; [|split].
     - eapply V_R; [|exact HV]. apply R_refl. replace L with (S (L - 1)) by lia. apply ages_neq. exact HAg.
     - rewrite Hcs, <- Hb. rewrite EP. rewrite !firstn_app_exact. apply same_cell_refl.
-    - rewrite Hcs, <- Hb. eexists. split; [apply nth_error_app_exact|reflexivity]. }
+    - rewrite Hcs, <- Hb. eexists. split; [apply nth_error_app_exact|]. split; [reflexivity|exists x; reflexivity]. }
   exists (erase b), (cverts c), (erase a), x. split; [exact HT|]. split; [eapply nth_error_In; exact Hx|].
   rewrite Hcs. unfold indiv. rewrite erase_app. simpl. f_equal. f_equal. f_equal. f_equal.
   apply remove_at_filter; [|exact Hx]. apply asc_NoDup.
